@@ -670,3 +670,127 @@ def u2(prog):
     if n < 2:
         raise Broken("fewer binary searches than confirmed by hand (2)")
     return inst, findings
+
+
+# ---------------------------------------------------------------------------
+# Z4: integers render in their domain's radix so that the text reads back as an equal value of the same domain
+
+def z4(prog, tier="quick"):
+    """The `show` members of the decimal, hex, octal and binary constant domains (constant.cc) and the mpz_class inserter and
+    comparison/negation operators they use (int.cc) interpreted from source, with std::ostream modelled (radix, showbase), on every
+    magnitude 0, 2^k and 2^(k+1)-1 for k = 0..63, positive (unsigned and signed representation) and negative.  The renderers look at a
+    value only through its sign and its binary digits, so one all-ones and one single-one pattern per bit length exercise every digit
+    count.  The text is read back with the literal syntax of the lexer (optional '-', 0x / 0b / leading 0 / decimal)."""
+    from cxxobj import CxxEvaluator, Obj, OStream, OutOfBounds, StdStr
+    from absint import Thrown
+    inst, findings = [], []
+    shows = [f for f in prog.funcs.values() if f["n"] == "show" and prog.rel(f["file"]) == "libzwerg/constant.cc" and f.get("body") is not None and len(f["params"]) == 3]
+    doms = {}
+    ev = CxxEvaluator({"ctor:ios_flag_saver": lambda ev, o, a: None}, {}, prog=prog)
+    for f in shows:
+        if f.get("cls") == "numeric_constant_dom_t":
+            doms["dec"] = f
+            continue
+        # the unnamed domain structs: identify each by what its name() returns
+        sib = [g for g in prog.funcs.values() if g["n"] == "name" and g.get("cls") == f.get("cls") and g["file"] == f["file"] and g.get("body") is not None and
+               int(g["l"].split(":")[1]) > int(f["l"].split(":")[1])]
+        if not sib:
+            continue
+        g = min(sib, key=lambda g_: int(g_["l"].split(":")[1]))
+        r = ev.call(g, Obj("dom"), [])
+        nm = r.cstr() if hasattr(r, "cstr") else None
+        if nm in ("hex", "oct", "bin"):
+            doms[nm] = f
+    if set(doms) != {"dec", "hex", "oct", "bin"}:
+        raise Broken("cannot identify the dec/hex/oct/bin constant domains in constant.cc (found %s)" % sorted(doms))
+    full = None
+    for e in prog.enums.values():
+        if e["q"] == "brevity":
+            full = {c["n"]: ("enum", c["n"], c["v"]) for c in e["consts"]}
+    if not full:
+        raise Broken("enum brevity vanished")
+
+    def mpz(n):
+        """both representations libzwerg can hold for the integer n"""
+        out = []
+        if n >= 0:
+            v = Obj("mpz_class")
+            v.m_u, v.m_i, v.m_sign = n, n - (1 << 64) if n >= 1 << 63 else n, ("enum", "unsign", 0)
+            out.append(v)
+        if -(1 << 63) <= n < (1 << 63):
+            v = Obj("mpz_class")
+            v.m_u, v.m_i, v.m_sign = n & ((1 << 64) - 1), n, ("enum", "sign", 1)
+            out.append(v)
+        return out
+    sign_e = None
+    for e in prog.enums.values():
+        if e["q"] == "signedness":
+            sign_e = {c["n"]: ("enum", c["n"], c["v"]) for c in e["consts"]}
+    if sign_e:
+        def mpz(n, _s=sign_e):
+            out = []
+            if n >= 0:
+                v = Obj("mpz_class")
+                v.m_u, v.m_i, v.m_sign = n, n - (1 << 64) if n >= 1 << 63 else n, _s["unsign"]
+                out.append(v)
+            if -(1 << 63) <= n < (1 << 63):
+                v = Obj("mpz_class")
+                v.m_u, v.m_i, v.m_sign = n & ((1 << 64) - 1), n, _s["sign"]
+                out.append(v)
+            return out
+    mags = {0}
+    for k in range(64):
+        mags |= {1 << k, (1 << (k + 1)) - 1}
+    if tier != "thorough":
+        mags = {m for m in mags if m < 1 << 9 or m >= 1 << 30}
+    values = sorted(mags | {-m for m in mags if m <= 1 << 63})
+
+    def read_back(text):
+        """(value, domain) of the text as an integer literal, or None"""
+        import re
+        m = re.fullmatch(r"(-?)(0[xX][0-9a-fA-F]+|0[bB][01]+|0[0-7]*|[1-9][0-9]*)", text)
+        if not m:
+            return None
+        body = m.group(2)
+        if body[:2].lower() == "0x":
+            v, d = int(body[2:], 16), "hex"
+        elif body[:2].lower() == "0b":
+            v, d = int(body[2:], 2), "bin"
+        elif body != "0" and body[0] == "0":
+            v, d = int(body, 8), "oct"
+        else:
+            v, d = int(body), "dec"
+        return (-v if m.group(1) else v), d
+    n_eval = 0
+    for dom, f in sorted(doms.items()):
+        key = "Z4:" + dom
+        bad = []
+        for n in values:
+            for v in mpz(n):
+                o = OStream()
+                try:
+                    ev.call(f, Obj("dom"), [v, o, full["full"]])
+                except OutOfBounds as x:
+                    bad.append((n, "rendering %d: %s (memory error)" % (n, x)))
+                    continue
+                except Thrown as x:
+                    bad.append((n, "rendering %d raises an error (%s)" % (n, x)))
+                    continue
+                n_eval += 1
+                text = o.text()
+                rb = read_back(text)
+                if rb is None:
+                    bad.append((n, "%d renders as `%s`, which is not an integer literal" % (n, text)))
+                elif rb[0] != n:
+                    bad.append((n, "%d (%#x) renders as `%s`, which reads back as %d" % (n, n & ((1 << 64) - 1), text, rb[0])))
+                elif rb[1] != dom:
+                    bad.append((n, "%d renders as `%s`, which reads back in the %s domain" % (n, text, rb[1])))
+        inst.append((key, {"values": len(values)}))
+        zero = [b for b in bad if b[0] == 0]
+        other = [b for b in bad if b[0] != 0]
+        if zero:
+            findings.append({"key": key + ":zero", "where": "libzwerg/" + f["l"], "msg": "%s domain: %s; reading the text back gives a constant of another domain (`0x0`, `00`, `0b0` all print `0`)" % (dom, zero[0][1]), "detail": None})
+        if other:
+            findings.append({"key": key, "where": "libzwerg/" + f["l"], "msg": "%s domain: %s (%d of %d values affected)" % (dom, other[0][1], len({b[0] for b in other}), len(values)), "detail": None})
+    inst.append(("Z4:evaluations", {"n": n_eval}))
+    return inst, findings
